@@ -633,7 +633,11 @@ func (w *world) finalChecks(faulted bool, r *result) {
 		if len(live) == 1 && !faulted {
 			l := live[0]
 			if err != nil || got == nil {
-				m.fail("live-mapping-unreachable", fmt.Sprintf("%s: mapping %s of client %d was created successfully and never deleted by its owner, but LookupByDomain finds nothing (%v): it does not route", name, l.id, l.owner, err))
+				more := ""
+				if pm, perr := w.repo(i).CreateMapping(w.ctx, probeClient, subs[i], baseDomain, targetHost(probeClient), targetPort(probeClient)); perr == nil {
+					more = fmt.Sprintf("; a further CreateMapping(%s) by client %d then succeeded (%s): two mapping records own one name", name, probeClient, pm.ID)
+				}
+				m.fail("live-mapping-unreachable", fmt.Sprintf("%s: mapping %s of client %d was created successfully and never deleted by its owner, but LookupByDomain finds nothing (%v): it does not route%s", name, l.id, l.owner, err, more))
 				return
 			}
 			if got.ID != l.id || got.ClientID != l.owner || got.FullDomain != name {
